@@ -1,15 +1,19 @@
 from .common import COMMON_TB
 
 CFG = dict(
-    coq="Properties/C16.v",
-    areas=["lzmadec"],
+    coq=["Properties/C16.v", "Properties/C16Readers.v"],
+    areas=["lzmadec", "c12"],
     level="proof",
-    theorems_expected=["C16_range_decoder_consumes_exactly", "C16_decode_leaves_tail", "C16_lzma2_payload_exact"],
+    theorems_expected=["C16_range_decoder_consumes_exactly", "C16_decode_leaves_tail", "C16_lzma2_payload_exact",
+                       "C16_lzma1_reader_leaves_tail", "C16_lzma1_header_reader_leaves_tail", "C16_lzma2_reader_leaves_tail", "C16_xz_single_stream_leaves_rest"],
     rule="lzmadec: streams written by the crate's LZMA/LZMA2 writers under random in-range options, followed by trailing bytes "
          "(none, zeros, random), read through LZMAReader (end marker; declared size without marker) and LZMA2Reader with a "
          "destination-size history; after the reader returned end of stream the number of source bytes not consumed is compared with the "
          "extracted model's (which itself equals the length of the trailing bytes for valid streams); corrupted and random streams run "
-         "through the same comparison. distinct_nontrivial = distinct command lines whose observation is a non-empty result",
+         "through the same comparison. c12 (shared with C12): XZ files (one or several streams, stream padding, trailing null bytes / garbage / "
+         "container data) read by XZReader in single-stream and multi-stream mode; observation = content + number of source bytes left, compared "
+         "with the extracted XzFormat model; the oracle demands that a single-stream reader leaves exactly the bytes after the first stream's footer. "
+         "distinct_nontrivial = distinct command lines whose observation is a non-empty result",
     trusted_base=COMMON_TB,
     assumptions=["in-memory source (std::io::Cursor) whose position is the number of bytes the reader requested"],
 )
